@@ -1,4 +1,5 @@
 import RubyTi.Model.Analysis
+import RubyTi.Gen.ClassFacts
 
 /-!
 # C12 — analysing a program never alters configured builtin signatures
@@ -59,5 +60,11 @@ example :
     let s : Store := [(k, (T.makeUnion [T.makeAnyInt, T.makeAnyFloat]).setMethod BUILTIN "*".toList [])]
     let ops := [Op.write (valueKey [] [] [] "x".toList false) T.makeAnyString, Op.call k T.makeAnyString [T.makeAnyInt]]
     ops.all userOp = true ∧ isBuiltinKey k = true ∧ (lookup (run s ops) k).isSome = true := by decide
+
+/-- One of the places where the analysis of USER code handles a configured entry: a class without `initialize`
+inherits its ancestor's `new` (for `class Stack < Array` the configured `Array.new`). The source copies that
+entry before it retargets it to the subclass (regenerated fact), so the write is a user-frame write in the sense
+of `userOp` and the configured entry stays as declared. -/
+theorem inherited_new_is_copied : Gen.classNewCopiedBeforeRetarget = true := by decide
 
 end RubyTi.C12
